@@ -451,7 +451,15 @@ static void handle(int argc, char** argv)
 		if (!st) { printf("bad-op"); return; }
 		x = hex_arg(argv[2], &n);
 		code0 = btokSMCmdUnwrap(0, &size0, x, n, st);           /* format check only */
-		if (code0 != ERR_OK) printf("err:%u", (unsigned)code0);
+		if (code0 != ERR_OK)
+		{
+			/* the rejected input once more with a non-null command (copies from the input happen only then) */
+			size_t cap = sizeof(apdu_cmd_t) + n + 8;
+			apdu_cmd_t* cmd = (apdu_cmd_t*)out_buf(cap);
+			code = btokSMCmdUnwrap(cmd, &size, x, n, st);
+			if (code == ERR_OK) printf("null-mismatch"); else printf("err:%u", (unsigned)code0);
+			out_free((unsigned char*)cmd, cap);
+		}
 		else
 		{
 			apdu_cmd_t* cmd = (apdu_cmd_t*)out_buf(size0);
@@ -501,7 +509,14 @@ static void handle(int argc, char** argv)
 		if (!st) { printf("bad-op"); return; }
 		x = hex_arg(argv[2], &n);
 		code0 = btokSMRespUnwrap(0, &size0, x, n, st);
-		if (code0 != ERR_OK) printf("err:%u", (unsigned)code0);
+		if (code0 != ERR_OK)
+		{
+			size_t cap = sizeof(apdu_resp_t) + n + 8;
+			apdu_resp_t* resp = (apdu_resp_t*)out_buf(cap);
+			code = btokSMRespUnwrap(resp, &size, x, n, st);
+			if (code == ERR_OK) printf("null-mismatch"); else printf("err:%u", (unsigned)code0);
+			out_free((unsigned char*)resp, cap);
+		}
 		else
 		{
 			apdu_resp_t* resp = (apdu_resp_t*)out_buf(size0);
